@@ -4,6 +4,7 @@ import (
 	"encoding/binary"
 	"fmt"
 	"github.com/cuteLittleDevil/go-jt808/protocol/utils"
+	"github.com/cuteLittleDevil/go-jt808/shared/consts"
 	"strings"
 )
 
@@ -414,7 +415,11 @@ func (t *T0x0200ExtensionSBBase) parse(data []byte) {
 	t.Longitude = binary.BigEndian.Uint32(data[7:11])
 	t.DateTime = utils.BCD2Time(data[11:17])
 	t.VehicleStatus.parse(binary.BigEndian.Uint16(data[17:19]))
+	// 扩展项里的报警标识号固定是苏标的16字节布局 不跟随接收者上配置的主动安全标准
+	asType := t.P9208AlarmSign.ActiveSafetyType
+	t.P9208AlarmSign.ActiveSafetyType = consts.ActiveSafetyJS
 	t.P9208AlarmSign.parse(data[19:35])
+	t.P9208AlarmSign.ActiveSafetyType = asType
 	t.ParseSuccess = true
 	return
 }
